@@ -5,6 +5,8 @@ import (
 	"fmt"
 	"math"
 	"math/big"
+	"os"
+	"strconv"
 	"testing"
 
 	lc "github.com/blinklabs-io/gouroboros/consensus"
@@ -746,7 +748,13 @@ func TestC37(t *testing.T) {
 
 	// --- exhaustive small sweep: every sigma with total <= S (pool up to total+1) x every f = a/b, b <= Bm
 	S, Bm := rec.Pick(6, 12), rec.Pick(8, 16)
-	sweepN := 0
+	// the thorough tier runs as several processes with consecutive seeds: each sweeps one residue class
+	parts, part := 1, 0
+	if v, err := strconv.Atoi(os.Getenv("C37_SWEEP_PARTS")); err == nil && v > 1 {
+		parts = v
+		part = int(rec.Seed() % int64(v))
+	}
+	sweepN, sweepIdx := 0, 0
 	for total := uint64(1); total <= uint64(S); total++ {
 		for pool := uint64(0); pool <= total+1; pool++ {
 			for b := int64(1); b <= int64(Bm); b++ {
@@ -755,6 +763,10 @@ func TestC37(t *testing.T) {
 						continue
 					}
 					if (a == 0 || a == b) && b != 1 {
+						continue
+					}
+					sweepIdx++
+					if sweepIdx%parts != part {
 						continue
 					}
 					c := &thCase{Pool: pool, Total: total, F: big.NewRat(a, b), StakeClass: "sweep", FClass: "sweep"}
@@ -774,7 +786,7 @@ func TestC37(t *testing.T) {
 		}
 	}
 	rec.SetExtra("n_sweep_cases", sweepN)
-	rec.SetExtra("sweep_bounds", fmt.Sprintf("total<=%d, pool<=total+1, f=a/b with b<=%d (reduced), both modes", S, Bm))
+	rec.SetExtra("sweep_bounds", fmt.Sprintf("total<=%d, pool<=total+1, f=a/b with b<=%d (reduced), both modes; split over %d processes by case index", S, Bm, parts))
 
 	// --- fixed deep cases: the implementation's last escalation levels and its error exit.
 	// 1-f = (3/2^40)^3 * (1 +/- 2^-B), sigma = 2/3: 2^k*(1-f)^sigma is within ~2^(k-B) of the integer 9*2^(k-80).
@@ -789,7 +801,10 @@ func TestC37(t *testing.T) {
 			list = append(list, deep{9300, -1, 0}, deep{9300, +1, 1}, deep{18400, -1, 1}, deep{18500, -1, 0}, deep{20000, +1, 1})
 		}
 		root := new(big.Rat).SetFrac(big.NewInt(3), pow2(40))
-		for _, d := range list {
+		for di, d := range list {
+			if parts > 1 && di%parts != part {
+				continue
+			}
 			fac := new(big.Int).Add(pow2(d.B), big.NewInt(int64(d.sign)))
 			y := new(big.Rat).SetFrac(new(big.Int).Mul(big.NewInt(27), fac), new(big.Int).Mul(pow2(120), pow2(d.B)))
 			c := &thCase{Pool: 2, Total: 3, F: new(big.Rat).Sub(ratOne(), y), StakeClass: "fixed_deep", FClass: fmt.Sprintf("fixed_deep:B=%d", d.B),
